@@ -356,6 +356,24 @@ def r_ttl(prog, R):
         else:
             r.viol("reader-decrements:%s" % f.name, f.name, v["loc"],
                    "%s reads rr->ttl without subtracting the parent's ttl_decrement: TTLs of a cached answer are reported undecremented" % f.name)
+    # inside a decrementing reader every return that hands out the stored TTL applies the decrement (no per-type bypass),
+    # except for records that have no parent
+    for name in sorted(direct_dec):
+        f = prog.func(name)
+        mf = MustFacts(f, track_calls=False)
+        for b, i, el in f.returns():
+            e = el.get("e")
+            if e is None or not any(is_field(n, "ttl", "ares_dns_rr") for n in walk(e)):
+                continue
+            sub = any(n.get("k") == "bin" and n["op"] == "-" and any(is_field(m, "ttl_decrement") for m in walk(n["r"])) for n in walk(e))
+            facts = mf.cond_facts_at(b, i)
+            noparent = cond_holds(facts, lambda op, l, rr: is_field(l, "parent", "ares_dns_rr") and ((op == "==" and rr is not None and is_null(rr)) or op == "false"))
+            key = "every-ttl-return-aged:%s" % name
+            if sub or noparent:
+                r.ok(key, f.loc(el), nontrivial=False)
+            else:
+                extra = [render(cc) for cc, p in facts]
+                r.viol(key, name, f.loc(el), "a path returns the stored TTL without subtracting the cache age (guards: %s): those records look fresh on every cache hit" % extra)
     # no double decrement: callers of a decrementing reader must not subtract again
     for name in sorted(direct_dec):
         for cf, b, i, c in prog.callers_of(name):
